@@ -363,6 +363,36 @@ theorem subregionsByCds_labels (circular : Bool) (L pad : Int) (lookup : Int →
       simp only [List.filterMap_cons, hl, Option.map_some, List.map_cons, byCdsArea_label, List.filter_cons,
         Option.isSome_some, if_true, ih]
 
+/-! ### `get_ruleset`: the option sets are asked for membership only -/
+
+theorem isEmpty_eq_of_same_members {a₁ a₂ : List Int} (h : ∀ x, x ∈ a₁ ↔ x ∈ a₂) : a₁.isEmpty = a₂.isEmpty := by
+  cases a₁ with
+  | nil => cases a₂ with
+    | nil => rfl
+    | cons b t => exact absurd ((h b).2 (by simp)) (by simp)
+  | cons a t => cases a₂ with
+    | nil => exact absurd ((h a).1 (by simp)) (by simp)
+    | cons b u => rfl
+
+theorem restrictRules_congr (rules : List (Int × Int)) {n₁ n₂ c₁ c₂ : List Int} (hn : ∀ x, x ∈ n₁ ↔ x ∈ n₂)
+    (hc : ∀ x, x ∈ c₁ ↔ x ∈ c₂) : restrictRules rules n₁ c₁ = restrictRules rules n₂ c₂ := by
+  have e1 : ∀ x, n₁.contains x = n₂.contains x := fun x => by
+    rw [Bool.eq_iff_iff]; simp only [List.contains_iff_mem]; exact hn x
+  have e2 : ∀ x, c₁.contains x = c₂.contains x := fun x => by
+    rw [Bool.eq_iff_iff]; simp only [List.contains_iff_mem]; exact hc x
+  simp only [restrictRules, isEmpty_eq_of_same_members hn, isEmpty_eq_of_same_members hc, e1, e2]
+
+theorem restrictRules_sublist (rules : List (Int × Int)) (n c : List Int) : (restrictRules rules n c).Sublist rules := by
+  unfold restrictRules
+  have h1 : (if n.isEmpty then rules else rules.filter fun r => n.contains r.1).Sublist rules := by
+    split
+    · exact List.Sublist.refl _
+    · exact List.filter_sublist
+  simp only
+  split
+  · exact h1
+  · exact List.filter_sublist.trans h1
+
 /-! ### before D1705: the first maximum in the set's own iteration order -/
 
 theorem bestIn_ge : ∀ (b : FHit) (l : List FHit), ∀ o ∈ b :: l, o.sc ≤ (bestIn b l).sc
